@@ -183,6 +183,18 @@ def writer_steps(t, style, ver):
     return steps
 
 
+def interleaving_signature(log, roles):
+    """Order of the observable events with thread ids replaced by roles (writer/reader k)."""
+    import hashlib
+
+    seq = []
+    for e in log.events:
+        if e[1] == "try":
+            continue
+        seq.append((e[1], roles.get(e[2], "other")))
+    return hashlib.blake2b(repr(seq).encode(), digest_size=6).hexdigest()
+
+
 def instrument(t, log):
     """Installs the proxy and verifies that `with tree:` really goes through it."""
     if not hasattr(t, "_lock") or not hasattr(t._lock, "acquire"):
@@ -383,6 +395,8 @@ def schedule_A(case, res):
         if timed_out or any(th.is_alive() for th in threads):
             res.inconc("schedule A: watchdog fired")
             return
+        roles = {me: "writer", **{tid: f"reader{i}" for i, tid in enumerate(tids)}}
+        res.count("interleaving:" + interleaving_signature(log, roles))
         evs = log.events
         final_release = max((e[0] for e in evs if e[1] == "released" and e[2] == me and e[4] == 0), default=None)
         for i, tid in enumerate(tids):
@@ -482,6 +496,7 @@ def schedule_B(case, res):
             res.inconc("schedule B: watchdog fired")
             return
         res.count("blocked_events", sum(1 for e in log.events if e[1] == "blocked"))
+        res.count("interleaving:" + interleaving_signature(log, {rt.ident: "reader", wid: "writer"}))
         if paused:
             res.count("reader_paused_mid_operation")
         if "r" in out:
@@ -645,6 +660,11 @@ def stress(case, res):
             res.inconc("stress run did not finish in 120 s (possible deadlock, or slow machine)")
         blocked = sum(1 for e in log.events if e[1] == "blocked")
         res.count("blocked_events", blocked)
+        wids = {th.ident: f"w{i}" for i, th in enumerate(ths[:case["writers"]])}
+        rids = {th.ident: f"r{i}" for i, th in enumerate(ths[case["writers"]:])}
+        # hand-over pattern of the lock in the stress run: sequence of (acquirer role) - one signature per run
+        res.count("interleaving:" + interleaving_signature(log, {**wids, **rids}))
+        res.count("lock_handovers", sum(1 for e in log.events if e[1] == "acquired" and e[4] == 1))
         res.count("yields_injected", inj["n"])
         res.count("stress_commits", state["version"])
         res.case(case, nontrivial=blocked >= 1)
@@ -727,6 +747,14 @@ def run_shard(spec, res):
                   "iters": spec["iters"], "yield_p": rng.choice([0.0, 0.01, 0.03]), "typed": spec["i"] % 2 == 1}, res)
 
 
+def post_merge(total):
+    keys = [k for k in total.counters if k.startswith("interleaving:")]
+    total.counters["distinct_interleavings_observed"] = len(keys)
+    for k in keys:
+        del total.counters[k]
+
+
 def summarize(total):
-    return {"schedule_cells": {k[5:]: v for k, v in total.counters.items() if k.startswith("cell:")},
+    return {"distinct_interleavings_observed": total.counters.get("distinct_interleavings_observed", 0),
+            "schedule_cells": {k[5:]: v for k, v in total.counters.items() if k.startswith("cell:")},
             "stress_operations": {k[10:]: v for k, v in total.counters.items() if k.startswith("stress_op:")}}
